@@ -87,7 +87,7 @@ Definition phase (isB : bool) (c : core) (pc : N) (md : amode) (num : N)
                 | KDec => upd c (idx pc wp0) (fun i => setf i (dec1 (f i)))
                 | _ => c end in
       let rdec := match k with
-                  | KDec => if isB then [] else [rep WarriorDecrement (idx pc wp0)]
+                  | KDec => [rep WarriorDecrement (idx pc wp0)]
                   | _ => [] end in
       let pip := idx pc wp0 in
       let rp := rfold (add64 rp0 (f (get c1 (idx pc rp0)))) in
@@ -97,7 +97,7 @@ Definition phase (isB : bool) (c : core) (pc : N) (md : amode) (num : N)
                 | KInc => upd c1 pip (fun i => setf i (inc1 (f i)))
                 | _ => c1 end in
       let rinc := match k with
-                  | KInc => if isB then [rep WarriorIncrement pip] else []
+                  | KInc => [rep WarriorIncrement pip]
                   | _ => [] end in
       (c2, rp, wp, ir, rdec ++ rinc)
     end
